@@ -85,7 +85,6 @@ def shipped():
 def run(ctx):
     ctx.build_go()
     T = ctx.tables()
-    ctx.regen({'Dists.lean': tolean.dists(T)})
     ctx.driver_path = ctx.driver()
     broken = ctx.audit(THEOREMS)
     rng = ctx.rng
@@ -103,7 +102,7 @@ def run(ctx):
         ops.append('%s\t%d\t%s\t%s' % (d, a, v, esc(t)))
         meta.append(('gen', t, (d, a, v)))
     ship = shipped()
-    tg = TARGETS if ctx.tier == 'thorough' else [TARGETS[(ctx.seed + i) % len(TARGETS)] for i in range(6)] + [('arch', 4, '4.1'), ('debian', 3, '3.0'), ('opensuse', 4, '4.0')]
+    tg = TARGETS if ctx.tier == 'thorough' else [TARGETS[(ctx.seed + i) % len(TARGETS)] for i in range(6)] + [('arch', 4, '4.1'), ('debian', 3, '3.0'), ('opensuse', 4, '4.0'), ('ubuntu', 4, '4.0'), ('whonix', 3, '3.0')]     # every distribution at least once
     for name, t in ship:
         for d, a, v in sorted(set(tg)):
             ops.append('%s\t%d\t%s\t%s' % (d, a, v, esc(t)))
@@ -127,10 +126,18 @@ def run(ctx):
         wf, spec = s.split('\t')
         name, t, tgt = meta[i]
         if wf != '1':
-            if name.endswith('/packagekitd') and go[i] != 'ok\t' + spec:
-                # K_rawSubstring: `  #aa:only opensuse` is contained in `    #aa:only opensuse`
-                if ctx.known_finding('K_rawSubstring'):
+            if name != 'gen' and go[i] != 'ok\t' + spec:
+                # a SHIPPED file whose directive layout is outside the well-formed class and on which the real code leaves the
+                # line-level specification: the property quantifies over the shipped files, so this is a violation unless listed
+                if name.endswith('/packagekitd') and ctx.known_finding('K_rawSubstring'):
+                    # K_rawSubstring: `  #aa:only opensuse` is contained in `    #aa:only opensuse`
                     nknown += 1
+                else:
+                    nfail += 1
+                    if nfail <= 3:
+                        ctx.violation('shipped file %s (directive layout not well formed: a marker text occurs inside another line, or a paragraph is not closed by a blank line): '
+                                      'real directive.Run leaves the line-level specification on target %s' % (name, tgt,),
+                                      {'op': ops[i], 'file': name, 'target': list(tgt), 'real_output': go[i], 'spec_output': spec})
             continue
         nwf += 1
         if go[i] != 'ok\t' + spec:
